@@ -227,7 +227,7 @@ def run(chk: lib.Check):
     # ---------------- models in which attributes are present but EMPTY (name="", workspacePath=""): code that sets a value for the time of an
     # operation and restores it afterwards has to restore "present and empty", not "absent"
     for spec0 in specs[:1]:
-        for rnd in range(1 if quick else 4):
+        for rnd in range(2 if quick else 6):
             with lib.scratch("c11e-") as tmp:
                 src = pathlib.Path(spec0["path"]).parent
                 shutil.copytree(src, tmp / "m", ignore=shutil.ignore_patterns("*.license"))
@@ -242,6 +242,13 @@ def run(chk: lib.Check):
                             continue
                         if f.suffix.startswith(".capella") and e.get("id") and e.get("name") is None and e.getparent() is not None and rng.random() < 0.7:
                             e.set("name", "")
+                            touched += 1
+                        elif f.suffix.startswith(".capella") and e.get("id") and e.get("name") and e.getparent() is not None and rnd % 2 == 1 and rng.random() < 0.4:
+                            # ... and named elements that lose their name (absent or empty): labels then come from fallbacks
+                            if rng.random() < 0.5:
+                                del e.attrib["name"]
+                            else:
+                                e.set("name", "")
                             touched += 1
                         elif f.suffix.startswith(".aird") and e.tag in ("ownedStyle", "styles") and e.get("workspacePath") is None and rng.random() < 0.5:
                             e.set("workspacePath", "")
@@ -304,6 +311,47 @@ def run(chk: lib.Check):
                             chk.violation(f"{what}-raises:bare:{cls}:{type(ex).__name__}", f"{what}() of a freshly created {cls} (no attributes set yet, created through "
                                           f"{type(o).__name__}.{name}.create({hint!r})) raised {ex!r}", {"model": spec0["name"], "owner": o.uuid, "relation": name, "hint": hint, "what": what})
         del model
+    # ---------------- configurations: the environment switches the getters consult at call time (CAPELLAMBSE_XHTML=1: descriptions are
+    # returned as repaired XHTML) — every HTML-valued attribute of every object of EVERY available model, bytes compared per model
+    import os as _os
+    from capellambse.model import _pods as P
+    old_env = _os.environ.get("CAPELLAMBSE_XHTML")
+    _os.environ["CAPELLAMBSE_XHTML"] = "1"
+    try:
+        for spec_x in corpus.model_specs("thorough"):
+            try:
+                model = corpus.load(spec_x)
+            except Exception:  # noqa: BLE001
+                continue
+            base = fingerprint(model)
+            n_html = 0
+            for p_, tree_ in model._loader.trees.items():
+                if p_.suffix not in graph.SEMANTIC:
+                    continue
+                for e in tree_.root.iter():
+                    if not (isinstance(e.tag, str) and e.get("id") and e.get("href") is None):
+                        continue
+                    try:
+                        o = _obj.ModelElement.from_model(model, e)
+                    except Exception:  # noqa: BLE001
+                        continue
+                    for an in dir(type(o)):
+                        if isinstance(getattr(type(o), an, None), P.HTMLStringPOD):
+                            try:
+                                getattr(o, an)
+                                n_html += 1
+                            except Exception:  # noqa: BLE001
+                                stats["xhtml-getattr-raises"] += 1
+            stats["xhtml-attribute-reads"] += n_html
+            chk.note_case((spec_x["name"], "xhtml"), nontrivial=True)
+            guard(model, base, f"reading {n_html} HTML attributes of {spec_x['name']} with CAPELLAMBSE_XHTML=1", f"reads-write:xhtml:{spec_x['name']}",
+                  {"model": spec_x["name"], "env": {"CAPELLAMBSE_XHTML": "1"}})
+            del model
+    finally:
+        if old_env is None:
+            _os.environ.pop("CAPELLAMBSE_XHTML", None)
+        else:
+            _os.environ["CAPELLAMBSE_XHTML"] = old_env
     # ---------------- temporary_attribute itself against its model (Model/TempAttr.v): any attribute map, absent / empty / valued, nested
     from capellambse.aird import _common as AC
     tcases = []
